@@ -69,8 +69,13 @@ class Partition:
 
     def heal(self) -> None:
         """Remove only this partition's pairs, leaving others intact."""
-        self._network._partitioned_pairs -= self.pairs
-        self._network._directed_partitions -= self.directed_pairs
+        net = self._network
+        net._active_partitions = [p for p in net._active_partitions if p is not self]
+        # A pair stays blocked while another active partition still covers it.
+        net._partitioned_pairs -= self.pairs.difference(*(p.pairs for p in net._active_partitions))
+        net._directed_partitions -= self.directed_pairs.difference(
+            *(p.directed_pairs for p in net._active_partitions)
+        )
         logger.info(
             "[%s] Selective partition healed: %d bidirectional + %d directed pairs",
             self._network.name,
@@ -106,6 +111,9 @@ class Network(Entity):
 
     # Directed partition state: set of (source, dest) tuples (asymmetric)
     _directed_partitions: set[tuple[str, str]] = field(default_factory=set, init=False)
+
+    # Partition handles that have not been healed yet (pairs may be shared)
+    _active_partitions: list[Partition] = field(default_factory=list, init=False)
 
     # Track all known entities for partition validation
     _known_entities: dict[str, Entity] = field(default_factory=dict, init=False)
@@ -242,11 +250,13 @@ class Network(Entity):
                 [e.name for e in group_b],
             )
 
-        return Partition(
+        handle = Partition(
             pairs=frozenset(bidirectional_pairs),
             directed_pairs=frozenset(directed_pairs),
             _network=self,
         )
+        self._active_partitions.append(handle)
+        return handle
 
     def heal_partition(self) -> None:
         """Remove all network partitions, restoring full connectivity."""
@@ -254,6 +264,7 @@ class Network(Entity):
         num_directed = len(self._directed_partitions)
         self._partitioned_pairs.clear()
         self._directed_partitions.clear()
+        self._active_partitions.clear()
         logger.info(
             "[%s] All partitions healed: %d bidirectional + %d directed pairs restored",
             self.name,
